@@ -378,7 +378,7 @@ class ops:
             return x, *args
 
         self.get_at = adapter.classical_from_numpy.get_at(np.ndarray.__getitem__, np.take, to_tensor=to_tensor_index)
-        self.set_at = adapter.classical_from_numpy.update_at(np.put, to_tensor=to_tensor_index)
+        self.set_at = adapter.classical_from_numpy.update_at(np.put, to_tensor=to_tensor_index, broadcast=self.broadcast_to)
         self.add_at = adapter.classical_from_numpy.update_at(np.add.at, to_tensor=to_tensor_index, broadcast=self.broadcast_to)
         self.subtract_at = adapter.classical_from_numpy.update_at(np.subtract.at, to_tensor=to_tensor_index, broadcast=self.broadcast_to)
 
